@@ -9,8 +9,9 @@ import time
 from . import pipeline as P
 
 VERIF = P.VERIF
-EVID = os.path.join(VERIF, "evidence")
-REPLAY = os.path.join(VERIF, "build", "replay")
+# scratch runs (VX_BUILD set) keep their evidence and replay files out of /verif
+EVID = os.path.join(os.environ["VX_BUILD"], "evidence") if os.environ.get("VX_BUILD") else os.path.join(VERIF, "evidence")
+REPLAY = os.path.join(P.BUILD, "replay")
 
 TRUSTED_COMMON = [
     "Verus 0.2026.09.13 (rust_verify + vstd) and its bundled Z3 as the proof checker",
@@ -107,15 +108,30 @@ def decide(pid, tier, seed):
     fnames = set(f["name"] for f in funcs)
     # resource limits: one retry with a larger budget, then undecided
     res_mine = [x for x in res if x["function"] in fnames or x["function"] == "?" or gi_mode(gi, x["function"]) == "proof"]
+    undischarged = []
     if res_mine:
         r2 = P.run_verus(g["gen_path"], g["gen_text"], extra=["--rlimit", "40"], label="retry")
         fails2, tools2, res2 = P.obligations_from(r2, gi)
         res_mine2 = [x for x in res2 if x["function"] in fnames or gi_mode(gi, x["function"]) == "proof"]
-        if res_mine2:
-            raise P.Undecided("resource limit exceeded in " + ", ".join(sorted(set(x["function"] for x in res_mine2))))
         r, fails, res = r2, fails2, res2
         fb = P.function_breakdown(r)
         notes.append("main run hit a resource limit; verdict taken from the retry with --rlimit 40")
+        if res_mine2:
+            # The solver gave up (no proof, no refutation).  If the function's code is the code the
+            # committed baseline was discharged on, this is solver instability: undecided.  If the
+            # code changed, obligations that were discharged on the baseline are now undischarged
+            # even with four times the budget: reported as a violation, with the solver's reason.
+            base = load_baseline()
+            changed = changed_functions(g, base)
+            stable = [x for x in res_mine2 if x["function"] not in changed]
+            if stable:
+                raise P.Undecided("resource limit exceeded on unchanged code in " + ", ".join(sorted(set(x["function"] for x in stable))))
+            for x in res_mine2:
+                f = [f for f in funcs if f["name"] == x["function"]]
+                x = dict(x)
+                x["props"] = f[0]["props"] if f else []
+                x["obligation"] = "%s: all obligations (discharged on the baseline code, undischarged on the changed code at 4x the resource limit)" % x["function"]
+                undischarged.append(x)
     # lemma failures cannot be caused by /repo (lemmas are pure ghost text): undecided
     lemma_fail = [x for x in fails if gi_mode(gi, x["function"]) == "proof"]
     if lemma_fail:
@@ -125,7 +141,7 @@ def decide(pid, tier, seed):
     vac_mine = [v for v in vac if v in fnames]
     if vac_mine:
         raise P.Undecided("vacuous contract (unsatisfiable precondition) in " + ", ".join(vac_mine))
-    mine = [x for x in fails if pid in x["props"]]
+    mine = [x for x in fails if pid in x["props"]] + [x for x in undischarged if pid in x["props"]]
     # obligations
     per_fn = {}
     total = 0
@@ -218,6 +234,62 @@ def decide(pid, tier, seed):
     return 0
 
 
+def load_baseline():
+    p = os.path.join(VERIF, "contracts", "baseline.json")
+    if os.path.exists(p):
+        return json.load(open(p))
+    return {"functions": {}}
+
+
+def fn_hashes(g):
+    out = {}
+    for it in g["extraction"]["items"]:
+        k = it["key"]
+        if k.startswith("fn "):
+            k = k[3:]
+            m = re.match(r"<(\w+) as (\w+)(<.*>)?>::(\w+)", k)
+            if m:
+                k = "%s::%s" % (m.group(1), m.group(4))
+            out.setdefault(k, []).append(it["src_hash"])
+    return out
+
+
+def changed_functions(g, base):
+    """functions whose source in /repo differs from the source the baseline was discharged on"""
+    cur = fn_hashes(g)
+    ch = set()
+    for name, st in g["splice"]["functions"].items():
+        short = name
+        if st["status"] != "exact":
+            ch.add(name)
+    for k, hs in cur.items():
+        if sorted(base.get("functions", {}).get(k, {}).get("src_hash", [])) != sorted(hs):
+            ch.add(k)
+    return ch
+
+
+def write_baseline():
+    g = P.generate()
+    gi = P.GenIndex(g["gen_text"])
+    r = P.run_verus(g["gen_path"], g["gen_text"], label="main")
+    fails, tools, res = P.obligations_from(r, gi)
+    if fails or tools or res:
+        print("baseline refused: the current tree does not verify cleanly")
+        return 2
+    fb = P.function_breakdown(r)
+    hs = fn_hashes(g)
+    out = {"functions": {}}
+    for k, v in hs.items():
+        out["functions"][k] = {"src_hash": sorted(v)}
+    for f in gi.funcs:
+        if f["mode"] != "spec" and not f["external_body"]:
+            key = [k for k in fb if k.endswith("::" + f["name"])]
+            out["functions"].setdefault(f["name"], {}).update({"discharged": True, "rlimit": fb[key[0]]["rlimit"] if key else None})
+    json.dump(out, open(os.path.join(VERIF, "contracts", "baseline.json"), "w"), indent=1, sort_keys=True)
+    print("baseline written: %d functions" % len(out["functions"]))
+    return 0
+
+
 def gi_mode(gi, name):
     for f in gi.funcs:
         if f["name"] == name:
@@ -254,6 +326,8 @@ def main(argv):
     if len(argv) < 2:
         print(__doc__)
         return 2
+    if argv[1] == "--write-baseline":
+        return write_baseline()
     pid = argv[1]
     tier = os.environ.get("VERIF_TIER", "quick")
     if "--tier" in argv:
